@@ -321,6 +321,8 @@ class Interp:
                 r = h(self, store, v, "index" if d.startswith("ConstantIndex") else "subslice", nums) if h is not None else None
                 if r is None:
                     from .stdmodels import Seq
+                    if isinstance(v, Agg) and v.kind == "array" and v.path is None:
+                        v = Seq(v.fields)
                     if isinstance(v, Seq) and nums.get("from_end") == "false" and d.startswith("ConstantIndex"):
                         i_ = int(nums["offset"])
                         r = v.items[i_] if i_ < len(v.items) else TOP
